@@ -21,7 +21,7 @@ MinFix(costs, M) ==
                               ELSE M[RuleOf(Rhs(p)[i])]]
                IN IF \E i \in 1 .. PLen(p) : cs[i] >= INF THEN INF
                   ELSE FoldLeft(LAMBDA a, b : a + b, 0, cs)
-      M2 == [r \in Rules |-> Min({M[r]} \cup {pc(p) : p \in ProdsOf(r)})]
+      M2 == TLCEval([r \in Rules |-> Min({M[r]} \cup {pc(p) : p \in ProdsOf(r)})])
   IN IF M2 = M THEN M ELSE MinFix(costs, M2)
 MinCost(costs) == MinFix(costs, [r \in Rules |-> INF])
 
@@ -57,25 +57,26 @@ MinCostAlg(costs) == MinAlgLoop(costs, [c |-> [r \in Rules |-> 0], d |-> [r \in 
 
 \* Maximum cost: longest "path" over productive productions with positive-cycle detection.
 \* M[r] = -1 means "no derivation found yet".
+CAP == 100000000      \* values saturate here (costs on a token-gaining cycle grow without bound)
 MaxRound(costs, M) ==
   LET pc(p) == LET cs == [i \in 1 .. PLen(p) |->
                               IF IsToken(Rhs(p)[i]) THEN TokCost(costs, Rhs(p)[i])
                               ELSE M[RuleOf(Rhs(p)[i])]]
                IN IF \E i \in 1 .. PLen(p) : cs[i] < 0 THEN -1
-                  ELSE FoldLeft(LAMBDA a, b : a + b, 0, cs)
+                  ELSE FoldLeft(LAMBDA a, b : IF a + b > CAP THEN CAP ELSE a + b, 0, cs)     \* saturating
   IN [r \in Rules |-> Max({M[r]} \cup {pc(p) : p \in {q \in ProdsOf(r) : ProductiveProd(q)}})]
 RECURSIVE MaxIter(_, _, _)
 MaxIter(costs, M, k) ==
   \* (the comparison also forces TLC to evaluate the lazily built function M2 once)
   IF k = 0 THEN M
-  ELSE LET M2 == MaxRound(costs, M) IN IF M2 = M THEN M ELSE MaxIter(costs, M2, k - 1)
+  ELSE LET M2 == TLCEval(MaxRound(costs, M)) IN IF M2 = M THEN M ELSE MaxIter(costs, M2, k - 1)
 \* result: function rule -> cost, with -1 = unbounded and -2 = unproductive (no string at all)
 MaxCost(costs) ==
   LET n  == C.nr
       M1 == MaxIter(costs, [r \in Rules |-> -1], 2 * n + 2)
       M2 == MaxIter(costs, M1, n + 1)
   IN [r \in Rules |-> IF r \notin Productive THEN -2
-                      ELSE IF M2[r] > M1[r] THEN -1 ELSE M1[r]]
+                      ELSE IF M2[r] > M1[r] \/ M1[r] >= CAP THEN -1 ELSE M1[r]]
 
 \* Does rule r derive exactly the token string w?  CYK-style least fixed point over the spans of
 \* w (finite, so cycles in the grammar are harmless): D[r] = set of <<i, j>> such that r derives
@@ -88,8 +89,8 @@ SeqEnds(D, w, rhs, k, i) ==      \* positions reachable from i by deriving rhs[k
   ELSE UNION { SeqEnds(D, w, rhs, k + 1, sp[2]) : sp \in {x \in D[RuleOf(rhs[k])] : x[1] = i} }
 RECURSIVE SpanFix(_, _)
 SpanFix(D, w) ==
-  LET D2 == [r \in Rules |-> D[r] \cup UNION { UNION { { <<i, j>> : j \in SeqEnds(D, w, Rhs(p), 1, i) }
-                                                       : i \in 0 .. Len(w) } : p \in ProdsOf(r) }]
+  LET D2 == TLCEval([r \in Rules |-> D[r] \cup UNION { UNION { { <<i, j>> : j \in SeqEnds(D, w, Rhs(p), 1, i) }
+                                                       : i \in 0 .. Len(w) } : p \in ProdsOf(r) }])
   IN IF D2 = D THEN D ELSE SpanFix(D2, w)
 Derives(r, w) == <<0, Len(w)>> \in SpanFix([x \in Rules |-> {}], w)[r]
 
